@@ -8,7 +8,7 @@ C10_physical_eq_raw, C10_restore_exact_native, C10_restore_exact_desc, C10_resca
 
 `Fit.ValidatorA` (FitModel/ValidatorArith.lean) instantiates
 `D` with `Fit.ScaleOffset.discardValue` — the model of kit/scaleoffset over the binary64 model `Fit.F64`, the definitions
-C12's theorems are about — and `Options.factory` with `stdFactory`, read from the regenerated `Generated/ValidatorFactory.lean`
+C12's theorems are about — and `Options.factory` with `ValidatorA.stdFactory`, read from the regenerated `Generated/ValidatorFactory.lean`
 (every field of `factory.StandardFactory()`, printed from the compiled /repo on every run). Every theorem of FitProps/C10.lean
 holds for this instance (they hold for every `D`); the theorems here say what the restoration COMPUTES:
 `C10_restore_exact` — validating a message that carries the float64 physical value of a raw value writes back exactly that
@@ -38,16 +38,16 @@ open Fit.ValidatorA Fit.ScaleOffset Fit.F64 Fit.C12 Fit.C12L
 regenerated from the compiled /repo on every run) carries the unit pair (scale 1, offset 0), or a (scale, offset) pair that
 meets C12's side condition `pairOK` on a base type that restores to a Go integer type of at most 32 bits (no 64-bit, float or
 enum field of the profile is scaled). A profile release that leaves the range breaks this theorem, not the tie. -/
-theorem C10_std_factory_in_range (mn fn : Nat) (h : (stdFactory mn fn).nameKnown = true) :
-    ((stdFactory mn fn).scale = oneBits ∧ (stdFactory mn fn).offset = 0) ∨
-    (pairOK (stdFactory mn fn).scale (stdFactory mn fn).offset = true ∧
-      ∃ ty : IntTy, tgtOfBaseType (stdFactory mn fn).baseType = some (.int ty) ∧ ty.bits ≤ 32) :=
+theorem C10_std_factory_in_range (mn fn : Nat) (h : (ValidatorA.stdFactory mn fn).nameKnown = true) :
+    ((ValidatorA.stdFactory mn fn).scale = oneBits ∧ (ValidatorA.stdFactory mn fn).offset = 0) ∨
+    (pairOK (ValidatorA.stdFactory mn fn).scale (ValidatorA.stdFactory mn fn).offset = true ∧
+      ∃ ty : IntTy, tgtOfBaseType (ValidatorA.stdFactory mn fn).baseType = some (.int ty) ∧ ty.bits ≤ 32) :=
   stdFactory_inrange mn fn h
 
 /-- non-vacuity: record.altitude (20, 2) is known, uint16, scale 5, offset 500 — a pair of `C12.profilePairs` -/
-example : stdFactory 20 2 = { nameKnown := true, baseType := btUint16, scale := 0x4014000000000000, offset := 0x407f400000000000 } ∧
-    (stdFactory 20 2).nameKnown = true ∧ stdFactory 20 200 = {} ∧
-    ((stdFactory 20 2).scale, (stdFactory 20 2).offset) ∈ profilePairs := by decide +kernel
+example : ValidatorA.stdFactory 20 2 = { nameKnown := true, baseType := btUint16, scale := 0x4014000000000000, offset := 0x407f400000000000 } ∧
+    (ValidatorA.stdFactory 20 2).nameKnown = true ∧ ValidatorA.stdFactory 20 200 = {} ∧
+    ((ValidatorA.stdFactory 20 2).scale, (ValidatorA.stdFactory 20 2).offset) ∈ profilePairs := by decide +kernel
 
 /-- the field survives: `FieldBase`, not expanded, and (unless preserving) the restored value — computed by
 `ScaleOffset.validatorRestore`, the function `C12_validator` is about — is valid -/
@@ -147,19 +147,19 @@ exactly `p` — for every field of the profile whose base type restores to an in
 needed (`C10_std_factory_in_range`). -/
 theorem C10_restore_exact_native (om : Bool) (fd : FieldDesc) (d : DevField)
     (hn : (fd.nativeMesgNum != mesgNumInvalid && fd.nativeFieldNum != uint8Invalid) = true)
-    (hk : (stdFactory fd.nativeMesgNum fd.nativeFieldNum).nameKnown = true)
+    (hk : (ValidatorA.stdFactory fd.nativeMesgNum fd.nativeFieldNum).nameKnown = true)
     (ty : IntTy) (hty : ty.bits ≤ 32)
-    (hbt : tgtOfBaseType (stdFactory fd.nativeMesgNum fd.nativeFieldNum).baseType = some (.int ty))
+    (hbt : tgtOfBaseType (ValidatorA.stdFactory fd.nativeMesgNum fd.nativeFieldNum).baseType = some (.int ty))
     (p : Nat) (hp : p < 2 ^ ty.bits)
-    (hv : d.value = applyValue (scalarV ty p) (stdFactory fd.nativeMesgNum fd.nativeFieldNum).scale
-      (stdFactory fd.nativeMesgNum fd.nativeFieldNum).offset) :
+    (hv : d.value = applyValue (scalarV ty p) (ValidatorA.stdFactory fd.nativeMesgNum fd.nativeFieldNum).scale
+      (ValidatorA.stdFactory fd.nativeMesgNum fd.nativeFieldNum).offset) :
     restoreDev D (stdOptions om) fd d = { d with value := scalarV ty p } :=
   restoreDev_native_exact om fd d hn hk ty hty hbt p hp hv
 
 /-- non-vacuity: a developer field described as native record.altitude (20, 2) holding 20.0 m comes back as uint16 2600 -/
 example : restoreDev D (stdOptions true) ⟨0, 1, btUint16, 255, 127, 20, 2⟩ ⟨0, 1, .float64 0x4034000000000000⟩ =
     ⟨0, 1, .uint16 2600⟩ ∧
-    applyValue (scalarV .u16 2600) (stdFactory 20 2).scale (stdFactory 20 2).offset = .float64 0x4034000000000000 := by
+    applyValue (scalarV .u16 2600) (ValidatorA.stdFactory 20 2).scale (ValidatorA.stdFactory 20 2).offset = .float64 0x4034000000000000 := by
   decide +kernel
 
 /-- **… and the description's own scale and offset** (no native field): for every scale 1..254 (`uint8`; 255 = invalid, 0
